@@ -136,6 +136,11 @@ EXT_HAND = [
     {"spec": "spec: exists X (q(X) and (p(X) <-> X > 0)).", "right": "p(X) :- q(X), X > 0.", "ug": UG0},
     {"spec": "spec: (exists X q(X)) <-> (exists X p(X)).", "right": "p(X) :- q(X), X > 0.", "ug": UG0},
     {"spec": "spec: not forall X (p(X) <-> q(X)).", "right": "p(X) :- q(X), X != 0.", "ug": UG0},
+    # equivalences in negative positions
+    {"spec": "spec: forall X ((p(X) <-> q(X)) -> q(X)).", "right": "p(X) :- q(X), X > 0.", "ug": UG0},
+    {"spec": "spec: (p(1) <-> q(1)) -> p(2).", "right": "p(2) :- p(1), q(1). p(2) :- not p(1), not q(1). p(1) :- q(2).", "ug": UG0},
+    {"spec": "spec: not (p(0) <-> q(0)). spec: forall X (p(X) -> q(X) or X = 0).", "right": "p(0) :- not q(0). p(X) :- q(X), X != 0.", "ug": UG0},
+    {"spec": "spec: ((p(0) <-> q(0)) <-> p(1)).", "right": "p(0) :- q(0). p(1) :- q(0). p(1) :- not q(0).", "ug": UG0},
     # a placeholder that occurs only below a unary minus
     {"spec": "spec: forall X (p(X) <-> q(X) and X > -n$i).", "right": "p(X) :- q(X), X > 0 - n.", "ug": UG0 + " input: n -> integer."},
     {"left": "p(X) :- q(X).", "right": "p(X) :- q(X), X = X.", "ug": UG0 + " input: n -> integer. assumption: forall X (q(X) -> X > -n$i)."},
@@ -150,11 +155,12 @@ def ext_flagsets(direction="universal"):
 
 
 def ext_cases(ctx, n_q, n_t):
-    cases = V.tlc_generate(ctx, "ext", n_q if ctx.quick() else n_t, 1)
+    cases = []
     for i, h in enumerate(EXT_HAND):
         c = dict(h)
         c.update({"id": f"h{i}", "task": "external"})
         cases.append(c)
+    cases += V.tlc_generate(ctx, "ext", n_q if ctx.quick() else n_t, 1)
     base = os.path.join(V.REPO, "res", "examples", "external_equivalence")
     for d in sorted(os.listdir(base)):
         fs = sorted(os.listdir(os.path.join(base, d)))
@@ -260,7 +266,8 @@ def run_C19(ctx):
         ids = {r["id"] for r in s_usable}
         sc = [dict(c, flagsets=allS) for c in s_cases if c["id"] in ids][:20]
         ide = {r["id"] for r in e_usable}
-        ec = [dict(c, flagsets=allE) for c in e_cases if c["id"] in ide][:24]
+        hand = [c for c in e_cases if c["id"] in ide and c["id"].startswith("h")]
+        ec = [dict(c, flagsets=allE) for c in (hand[-14:] + [c for c in e_cases if c["id"] in ide and not c["id"].startswith("h")])][:26]
         pp = {r["id"]: r["pp"] for r in s_usable + e_usable}
         recs = V.run_harness(ctx, "problems", sc, tag="-s19") + V.run_harness(ctx, "problems", ec, tag="-e19")
         usable = []
